@@ -347,6 +347,57 @@ def _thread_harness(cfg):
     return acc
 
 
+def _system_clock_harness(cfg):
+    """two threads reading SystemClock.instance while the OS clock (behind a seam) shows one and the same value:
+    both must get exactly that value, whatever was read before (a coarse OS clock makes equal readings normal)"""
+    bound, opcodes, max_runs = cfg
+    acc = Acc()
+    import pyoda_time._system_clock as sc
+
+    class _FakeTime:
+        def __init__(self):
+            self.now = 0
+
+        def time_ns(self):
+            return self.now
+    fake = _FakeTime()
+    X0, X = 1_700_000_000_000_000_000, 1_700_000_061_000_000_000
+
+    def make():
+        sc.time = fake
+        fake.now = X0
+        SystemClock.instance.get_current_instant()          # an earlier, different reading
+        fake.now = X
+        return [lambda: ins_ns(SystemClock.instance.get_current_instant()), lambda: ins_ns(SystemClock.instance.get_current_instant())], {}
+
+    def check(s, c):
+        if s.status != "OK":
+            return (s.status,), "execution does not complete: %s" % s.status
+        if any(e is not None for e in s.errors):
+            e = [e for e in s.errors if e is not None][0]
+            if exc_origin(e) == "harness" and not isinstance(e, sched.Abort):
+                raise e
+            return ("error", type(e).__name__), "thread raised %r" % (e,)
+        out = tuple(s.results)
+        return out, (None if out == (X, X) else "two threads read the system clock while the OS time was %d ns: got %r" % (X, out))
+    real_time = sc.time
+    try:
+        r = sched.explore(make, ("_system_clock.py",), bound, opcodes, check, max_runs, max_seconds=120)
+    finally:
+        sc.time = real_time
+    acc.count(states=r["runs"], evaluations=r["runs"], transitions=r["runs"] * max(1, r["points_max"]), nontrivial=len(r["outcomes"]))
+    for o, n in r["outcomes"].items():
+        acc.outcome("system|system => %r" % (o,), n)
+    if r["capped"]:
+        acc.cap("threads system|system capped at %d executions" % max_runs)
+    for label, what, schedule in r["violations"]:
+        acc.violation("C19/threads/system-clock/%s" % ("outcome" if not isinstance(label[0], str) else label[0]),
+                      "%s [preemption bound %d, %s granularity]" % (what, bound, "opcode" if opcodes else "line"),
+                      {"kind": "system-threads", "schedule": schedule, "opcodes": opcodes})
+    acc.sample({"threads": "system|system", "bound": bound, "opcodes": opcodes, "executions": r["runs"]})
+    return acc
+
+
 # ---- ZonedClock / SystemClock ----------------------------------------------------------------
 
 def zoned_and_system(acc: Acc):
@@ -427,6 +478,15 @@ def zoned_histories(acc: Acc, depth):
             continue
         a, b = ins_ns(zi.start), ins_ns(zi.end)          # two consecutive real transitions
         targets = [a - 3600 * 10**9, a - 1, a, a + 1, (a + b) // 2, b - 1, b, b + 3600 * 10**9]
+        # local-day boundaries around both transitions (a reading remembered "until the end of the local day" is only wrong
+        # on a day whose length was changed by a transition): local midnights of the surrounding days +- 30 min
+        for T in (a, b):
+            for side_off in {z.get_utc_offset(mk_instant(T - 1)).seconds, z.get_utc_offset(mk_instant(T)).seconds}:
+                day0 = ((T + side_off * 10**9) // NS_DAY) * NS_DAY - side_off * 10**9     # UTC instant of local midnight of T's day
+                for k in (0, 1):
+                    for eps in (-1800 * 10**9, 1800 * 10**9):
+                        targets.append(day0 + k * NS_DAY + eps)
+        targets = sorted(set(targets))
         moves = [("reset", t) for t in targets] + [("advance", d) for d in (b - a, a - b, 1, -1)]
 
         def expect(ns):
@@ -447,9 +507,10 @@ def zoned_histories(acc: Acc, depth):
         n = 0
         for dlen in range(1, depth + 1):
             for seq in itertools.product(moves, repeat=dlen):
-                fc = FakeClock(mk_instant(targets[4]))
+                start_at = (a + b) // 2
+                fc = FakeClock(mk_instant(start_at))
                 zc = fc.in_zone(z, cal)
-                now = targets[4]
+                now = start_at
                 n += 1
                 acc.count(evaluations=1)
                 try:
@@ -526,6 +587,8 @@ def run(ctx):
     for t in three:
         harnesses.append((t, 2, True, 4000 if tier == "quick" else 150000))
     for a in pmap(_thread_harness, harnesses):
+        ctx.merge_part("threads", a)
+    for a in pmap(_system_clock_harness, [(2, True, 20000)]):
         ctx.merge_part("threads", a)
     # 4. zoned + system
     acc = Acc()
